@@ -1,4 +1,4 @@
-package internalpkg
+package fieldpkg
 
 import (
 	"encoding/hex"
@@ -279,64 +279,12 @@ func gen32AroundP(t *rapid.T) *big.Int {
 	return v.Mod(v, two256)
 }
 
-// gen48 draws 48-byte expander outputs by class.
-func gen48(t *rapid.T, m *big.Int) []byte {
-	two384 := new(big.Int).Lsh(bigOne, 384)
-	two192 := new(big.Int).Lsh(bigOne, 192)
-	var v *big.Int
-	switch gen.Pick(t, "k48", 10) {
-	case 9: // high part = floor(2^k / c) +- d for the modulus defect c = 2^256 - m (where folding hi*c back wraps), low part high
-		c := new(big.Int).Sub(new(big.Int).Lsh(bigOne, 256), m)
-		k := uint(rapid.SampledFrom([]int{256, 255, 257, 320, 384}).Draw(t, "qk"))
-		hi := new(big.Int).Div(new(big.Int).Sub(new(big.Int).Lsh(bigOne, k), bigOne), c)
-		hi.Add(hi, big.NewInt(int64(rapid.IntRange(-1, 1).Draw(t, "qd"))))
-		hi.Mod(hi, new(big.Int).Lsh(bigOne, 128))
-		lo := new(big.Int).Sub(new(big.Int).Lsh(bigOne, 256), bigOne)
-		if !rapid.Bool().Draw(t, "loAllOnes") {
-			lo.Sub(lo, gen.Int(new(big.Int).Lsh(bigOne, 200)).Draw(t, "lod"))
-		}
-		v = hi.Lsh(hi, 256).Add(hi, lo)
-	case 0:
-		v = new(big.Int).Sub(two384, big.NewInt(int64(rapid.IntRange(1, 3).Draw(t, "d")))) // all ones
-	case 1: // low half zero
-		hi := gen.Int(two192).Draw(t, "hi")
-		v = hi.Lsh(hi, 192)
-	case 2: // high half zero
-		v = gen.Int(two192).Draw(t, "lo")
-	case 3: // high half all ones
-		v = new(big.Int).Sub(two192, bigOne)
-		v.Lsh(v, 192).Add(v, gen.Int(two192).Draw(t, "lo"))
-	case 4: // multiples of m and neighbours
-		k := gen.Int(new(big.Int).Lsh(bigOne, 127)).Draw(t, "k")
-		v = k.Mul(k, m)
-		v.Add(v, big.NewInt(int64(rapid.IntRange(-2, 2).Draw(t, "d"))))
-	case 5: // value just around m, 2m
-		v = new(big.Int).Mul(m, big.NewInt(int64(rapid.IntRange(1, 3).Draw(t, "mult"))))
-		v.Add(v, big.NewInt(int64(rapid.IntRange(-2, 2).Draw(t, "d"))))
-	case 6: // limb patterns
-		v = new(big.Int)
-		for i := 0; i < 6; i++ {
-			v.Lsh(v, 64)
-			v.Or(v, new(big.Int).SetUint64(gen.Limb().Draw(t, "l")))
-		}
-	default:
-		v = new(big.Int).SetBytes(gen.RandBytes(t, "rnd", 48))
-	}
-	if v.Sign() < 0 {
-		v.Neg(v)
-	}
-	v.Mod(v, two384)
-	out := make([]byte, 48)
-	v.FillBytes(out)
-	return out
-}
-
 var c12bytes = gen.Register(&gen.Check[caseC12bytes]{
 	Name:   "C12/bytes",
 	Weight: 0.5,
 	Gen: func(t *rapid.T) caseC12bytes {
 		if rapid.Bool().Draw(t, "wide") {
-			return caseC12bytes{Kind: "wide48", Data: hex.EncodeToString(gen48(t, ref.P))}
+			return caseC12bytes{Kind: "wide48", Data: hex.EncodeToString(gen.Wide48(t, ref.P))}
 		}
 		return caseC12bytes{Kind: "parse32", Data: gen.H(gen32AroundP(t))}
 	},
